@@ -170,7 +170,10 @@ class Judge:
         exp = self.arr[idx]
         err = abs(got - exp)
         scale = max(abs(exp), abs(got))
-        base = 1e-10 * scale + 1e-12 * max(self.maxabs, 1e-300)
+        # pools that hand single-precision numpy data to UFL are computed in single precision by numpy's promotion
+        # rules: only gross errors are judged there
+        single = "value_np32" in getattr(self.pool, "used_styles", ())
+        base = (2e-5 if single else 1e-10) * scale + (1e-6 if single else 1e-12) * max(self.maxabs, 1e-300)
         if err <= base:
             return "agree", err, exp
         if got != got or abs(got) == float("inf"):
@@ -188,7 +191,7 @@ class Judge:
             return "agree", err, exp
         if pd > 1e-9 * max(scale, 1e-300):
             return "inconclusive:ill-conditioned", err, exp
-        if err > 1e3 * tol and err > 1e-6 * scale:
+        if err > 1e3 * tol and err > (1e-2 if single else 1e-6) * scale:
             return "disagree", err, exp
         return "inconclusive:gray", err, exp
 
